@@ -163,4 +163,21 @@ def decodeRead (p : Params) (w : World) (i : Nat) (s : DecState) (r : ReadN.Read
     | some (w2, res) => some (w2, .ok (a.slice.len, res), o)
     | none => none
 
+/-! ### (track apileft, helper decw) the `Decoder` object after an error; draining through `impl Read` -/
+
+/-- What `Decoder::decode` / `decode_copy` (hcobs/src/lib.rs:282-295) leave in `self.state`: the state is
+swapped with `Default::default()` (= `InitialState`) BEFORE the state machine runs and `?` returns early on
+`Err`, so after an error the decoder is a usable decoder in `InitialState` over the SAME iovec (which keeps
+whatever was pushed before the error); on `Ok` the new state is stored.  (`decode_anchored` calls `decode`
+and then `push_anchor` whatever the verdict; `decode_read` wraps the error in an `io::Error`.) -/
+def decResume : Except DecErr DecState → DecState
+  | .ok s => s
+  | .error _ => .initial
+
+/-- `consumer().read(&mut buf[..k])` on the codec's iovec: `impl Read for ConsumingIovec`
+(owning_iovec/src/lib.rs:41-58) = `World.readInto`, slice by slice through `front()` / `advance_slices`;
+returns the bytes copied out (it never fails: `Ok(written)`). -/
+def readDrain (w : World) (i : Nat) (k : Nat) : Option (World × List UInt8) :=
+  World.readInto (k + 2) w i k []
+
 end Woodpile.EncWorld
